@@ -307,12 +307,13 @@ def depth_of(children):
 
 # ---------------------------------------------------------------------------------------------------------------
 @st.composite
-def annotation(draw, version, allow_placeholder=False, max_depth=3, with_defs=True, vary=True, specials=True):
+def annotation(draw, version, allow_placeholder=False, max_depth=3, with_defs=True, vary=True, specials=True,
+               used=None, max_children=4):
     """A rule-conforming annotation: {"version", "defs", "tree", "allow_placeholders"}."""
     pl = pool(version)
-    used = set()
+    used = set() if used is None else used
     defs = draw(definitions(version, used)) if (with_defs and pl.has["definition"] and pl.valued) else []
-    tree = draw(subtree(version, used, max_depth, allow_placeholder, vary, 1, 4))
+    tree = draw(subtree(version, used, max_depth, allow_placeholder, vary, 1, max_children))
     if specials:
         temporal_used = set()
         tops = []      # special top-level groups; closed to later insertions
